@@ -3465,10 +3465,15 @@ class WaitMatch(Match):
 
     def convert(self, current_error_handlers: dict):
         sm = self.match_contents.convert(current_error_handlers)
-        for state, trans in sm.transitions_pointing_to(current_error_handlers[ErrorReasons.NO_MATCH], True):
-            trans.to(sm.starting_state).handles_else()  # we make these error handling since that makes semantic sense for the usual use case for a wait node
-            if state == sm.starting_state:
-                trans.fallthrough(False).attach(*self.char_actions)
+        # Only look at the match's own states: following action overrides (e.g. a break adopted by this match) would otherwise
+        # also capture the error transitions of whatever comes after the enclosing loop.
+        for state in sm.states:
+            for trans in state.transitions:
+                if trans.target is not current_error_handlers[ErrorReasons.NO_MATCH]:
+                    continue
+                trans.to(sm.starting_state).handles_else()  # we make these error handling since that makes semantic sense for the usual use case for a wait node
+                if state == sm.starting_state:
+                    trans.fallthrough(False).attach(*self.char_actions)
         return sm
 
 class EndMatch(Match):
